@@ -25,7 +25,7 @@ ASSUMPTIONS = ['domain as stated by the property: rectangular tables, unique key
                'variable / value field names; fromdicts(dicts(t)) needs >= 1 data row']
 KINDS = ['melt-recast', 'recast-direct', 'melt', 'transpose', 'flatten', 'unflatten-period', 'pivot', 'unpack', 'unpackdict', 'capture', 'split', 'splitdown',
          'dicts-roundtrip', 'columns-roundtrip']
-REQUIRED = (['views-read-twice', 'columns-with-filler', 'regex-flags', 'unpackdict:keys-from-a-sample-shorter-than-the-table'] + ['kind:' + k for k in KINDS] + ['none-key', 'compound-key', 'key-not-leading', 'one-column', 'period=1', 'period=width',
+REQUIRED = (['views-read-twice', 'views-re-read-after-an-in-place-edit-of-the-source', 'columns-with-filler', 'regex-flags', 'unpackdict:keys-from-a-sample-shorter-than-the-table'] + ['kind:' + k for k in KINDS] + ['none-key', 'compound-key', 'key-not-leading', 'one-column', 'period=1', 'period=width',
             'pivot-missing-pair', 'field-by-index', 'include-original', 'explicit-variables-permuted', 'fromdicts-sample<nrows', 'fromdicts-generator:lagging-iterator', 'melt:key-inferred-from-variables', 'recast:sample-shorter-than-the-molten-table'])
 VALS = [None, 0, 1, 2.5, 'a', 'b', '', b'x', (1, 2), gen.D(2020, 1, 1), True]
 KEYS = [None, 1, 2, 3, 'a', 'b', b'a', (1, 2), 2.5, gen.D(2020, 1, 1), 0, '', ()]
@@ -158,6 +158,15 @@ WRAP = [lambda t: t]     # C03 re-runs these forms with mutation-guarded inputs 
 
 
 def judge(case, ctx):
+    e0 = util.EDITED[0]
+    try:
+        return _judge(case, ctx)
+    finally:
+        if util.EDITED[0] != e0:
+            ctx.seen('views-re-read-after-an-in-place-edit-of-the-source', util.EDITED[0] - e0)
+
+
+def _judge(case, ctx):
     kind = case['kind']
     ctx.op('kind:' + kind)
     out = []
@@ -200,7 +209,7 @@ def judge(case, ctx):
         for r in rows:
             for v in variables:
                 exp_melt.append(tuple(r[i] for i in kidx) + (v, r[hdr.index(v)]))
-        melted = util.attempt_rows_twice(lambda: petl.melt(table, key, **kw))
+        melted = util.attempt_rows_twice(lambda: petl.melt(table, key, **kw), live=table)
         d = _diff(melted, exp_melt, 'melt')
         if d:
             return d
@@ -286,7 +295,7 @@ def judge(case, ctx):
         return _diff(got, exp, 'recast')
 
     if kind == 'transpose':
-        back = util.attempt_rows_twice(lambda: petl.transpose(petl.transpose(table)))
+        back = util.attempt_rows_twice(lambda: petl.transpose(petl.transpose(table)), live=table)
         return _diff(back, [tuple(hdr)] + rows, 'transpose(transpose)')
 
     if kind == 'flatten':
@@ -378,7 +387,7 @@ def judge(case, ctx):
             kw = {'include_original': inc}
             if missing is not None:
                 kw['missing'] = missing
-            got = util.attempt_rows_twice(lambda: petl.unpack(table, field, nf_, **kw))
+            got = util.attempt_rows_twice(lambda: petl.unpack(table, field, nf_, **kw), live=table)
             return _diff(got, exp, 'unpack', {'field': field})
         if kind == 'unpackdict':
             if isinstance(field, int):
@@ -398,7 +407,7 @@ def judge(case, ctx):
                 kw['missing'] = missing
             if ss is not None:
                 kw['samplesize'] = ss
-            got = util.attempt_rows_twice(lambda: petl.unpackdict(table, field, **kw))
+            got = util.attempt_rows_twice(lambda: petl.unpackdict(table, field, **kw), live=table)
             return _diff(got, exp, 'unpackdict')
         if kind == 'capture':
             fl = case.get('flags', 0)
@@ -414,7 +423,7 @@ def judge(case, ctx):
             for r in rows:
                 m = prog.search(r[fi])
                 exp.append(tuple(base(r) + (list(m.groups()) if m else list(fill))))
-            got = util.attempt_rows_twice(lambda: petl.capture(table, field, case['pattern'], names, include_original=inc, fill=fill, **fkw))
+            got = util.attempt_rows_twice(lambda: petl.capture(table, field, case['pattern'], names, include_original=inc, fill=fill, **fkw), live=table)
             return _diff(got, exp, 'capture', {'field': field, 'include_original': inc})
         fl = case.get('flags', 0)
         fkw = {'flags': fl} if fl else {}
@@ -424,20 +433,20 @@ def judge(case, ctx):
             exp = [tuple(base_hdr + names)]
             for r in rows:
                 exp.append(tuple(base(r) + prog.split(r[fi], case['maxsplit'])))
-            got = util.attempt_rows_twice(lambda: petl.split(table, field, case['pattern'], case['newfields'], include_original=inc, maxsplit=case['maxsplit'], **fkw))
+            got = util.attempt_rows_twice(lambda: petl.split(table, field, case['pattern'], case['newfields'], include_original=inc, maxsplit=case['maxsplit'], **fkw), live=table)
             return _diff(got, exp, 'split', {'field': field, 'include_original': inc})
         prog = re.compile(case['pattern'], fl)
         exp = [tuple(hdr)]
         for r in rows:
             for piece in prog.split(r[fi], case['maxsplit']):
                 exp.append(tuple(piece if i == fi else r[i] for i in range(len(hdr))))
-        got = util.attempt_rows_twice(lambda: petl.splitdown(table, field, case['pattern'], maxsplit=case['maxsplit'], **fkw))
+        got = util.attempt_rows_twice(lambda: petl.splitdown(table, field, case['pattern'], maxsplit=case['maxsplit'], **fkw), live=table)
         return _diff(got, exp, 'splitdown')
 
     if kind == 'dicts-roundtrip':
         if not rows:
             return None
-        got = util.attempt_rows_twice(lambda: petl.fromdicts(petl.dicts(table)))
+        got = util.attempt_rows_twice(lambda: petl.fromdicts(petl.dicts(table)), live=table)
         d = _diff(got, [tuple(hdr)] + rows, 'fromdicts(dicts)')
         if d:
             return d
